@@ -207,6 +207,24 @@ mutual
     | c :: cs => noMultiSpace c && noMultiCands cs
 end
 
+mutual
+  /-- No custom decision point anywhere (their DNA children are user defined). -/
+  def Point.noCustom : Point → Bool
+    | .choices _ cands _ _ _ => noCustomCands cands
+    | .float .. => true
+    | .custom _ => false
+  def noCustomSpace : List Point → Bool
+    | [] => true
+    | p :: ps => p.noCustom && noCustomSpace ps
+  def noCustomCands : List (List Point) → Bool
+    | [] => true
+    | c :: cs => noCustomSpace c && noCustomCands cs
+end
+
+def Spec.noCustom : Spec → Bool
+  | .space s => noCustomSpace s
+  | .point p => p.noCustom
+
 def Spec.finite : Spec → Bool
   | .space s => finiteSpace s
   | .point p => p.finite
